@@ -48,9 +48,13 @@ def main():
         root = os.path.join(scratch, "repo")
         shutil.copytree(REPO, root, ignore=shutil.ignore_patterns(".git", "__pycache__", "docs", "*.egg-info"))
         demo = os.path.join(d, "demo.py")
+        demo_rel = os.path.join("_seed", "change1", "demo.py")  # the layout the demos were written for
         if os.path.exists(demo):
-            shutil.copy(demo, os.path.join(root, "_demo.py"))
-            rc, out, err, dt = run(["/venv/bin/python", "_demo.py"], cwd=root, env=env, timeout=900)
+            os.makedirs(os.path.join(root, "_seed", "change1"), exist_ok=True)
+            for f in os.listdir(d):
+                if f not in ("meta.json",):
+                    shutil.copy(os.path.join(d, f), os.path.join(root, "_seed", "change1", f))
+            rc, out, err, dt = run(["/venv/bin/python", demo_rel], cwd=root, env=env, timeout=900)
             ver["demo_without_patch"] = {"exit": rc, "wall_s": dt, "tail": (out + err)[-300:]}
         rc, out, err, _ = run(["git", "apply", "--whitespace=nowarn", os.path.join(d, "patch.diff")], cwd=root)
         if rc != 0:
@@ -60,7 +64,7 @@ def main():
             ver["patch_error"] = (out + err)[-400:]
         else:
             if os.path.exists(demo):
-                rc, out, err, dt = run(["/venv/bin/python", "_demo.py"], cwd=root, env=env, timeout=900)
+                rc, out, err, dt = run(["/venv/bin/python", demo_rel], cwd=root, env=env, timeout=900)
                 ver["demo_with_patch"] = {"exit": rc, "wall_s": dt, "tail": (out + err)[-300:]}
             if with_tests:
                 rc, out, err, dt = run(["/venv/bin/python", "-m", "pytest", "-q", "-p", "no:cacheprovider", "-n", "8",
